@@ -1413,6 +1413,7 @@ package sio
 //@ func (*serverSocket).registerAckHandler
 //@   opt safety off
 //@   panics_if true
+//@   requires !wheld(s.acksMu)
 //@   ghost got int = 0
 //@   ghost nid int = 0
 //@   callsite (*Namespace).nextAckID skip
@@ -1420,7 +1421,9 @@ package sio
 //@     update got = got + 1
 //@     updateafter nid = result
 //@   callsite newAckHandler skip
+//@     requires !wheld(s.acksMu) [C16.srv.ack.function.validated.before.locking]
 //@   callsite newAckHandlerWithTimeout skip
+//@     requires !wheld(s.acksMu) [C16.srv.timed.ack.function.validated.before.locking]
 //@   ensures got == 1 && id == nid [C03.srv.ackid.used]
 //@   ensures (id in s.acks) [C03.srv.ackid.registered]
 
@@ -1841,3 +1844,57 @@ package sio
 //@     requires !close && told == 1 && arg0 == ReasonServerNamespaceDisconnect [C06.disconnect.reason.names.the.cause]
 //@     update ended = ended + 1
 //@   ensures closes == 1 ==> all == 1 [C06.disconnect.close.never.skips.the.siblings]
+
+// C02 (client, Retries): with a retry queue EVERY non-volatile emit that does not come from the queue itself goes
+// through the queue - whatever its timeout - and is not encoded or sent directly: one FIFO carries all of a socket's
+// events, so a later emit of a goroutine cannot overtake an earlier, still unacknowledged one.
+//@ func (*clientSocket).emit
+//@   opt safety off
+//@   requires s != nil && s.config != nil && s.packetQueue != nil
+//@   panics_if true
+//@   ghost queued int = 0
+//@   ghost encoded int = 0
+//@   callsite IsEventReservedForClient skip
+//@   callsite (*clientPacketQueue).addToQueue skip
+//@     requires s.config.Retries > 0 && !fromQueue && !volatile && encoded == 0 [C02.cli.retries.queue.only.for.its.own.traffic]
+//@     update queued = queued + 1
+//@   callsite TypeOf skip
+//@   callsite Kind skip
+//@   callsite (*clientSocket).registerAckHandler skip
+//@   callsite Encode skip
+//@     requires !(s.config.Retries > 0 && !fromQueue && !volatile) && queued == 0 [C02.cli.retries.nothing.bypasses.the.queue]
+//@     update encoded = encoded + 1
+//@   callsite onError skip
+//@   callsite sendBuffers skip
+//@   ensures s.config.Retries > 0 && !fromQueue && !volatile ==> queued == 1 && encoded == 0 [C02.cli.retries.every.emit.queued]
+
+// C16 / C03: the function given for an acknowledgement is validated (newAckHandler, which the caller answers by
+// panicking) BEFORE the socket's ack mutex is taken - a panic with acksMu held would leave it held for good.
+//@ func (*clientSocket).registerAckHandler
+//@   opt safety off
+//@   requires s != nil
+//@   panics_if true
+//@   requires !wheld(s.acksMu)
+//@   callsite newAckHandler skip
+//@     requires !wheld(s.acksMu) [C16.cli.ack.function.validated.before.locking]
+//@   callsite newAckHandlerWithTimeout skip
+//@     requires !wheld(s.acksMu) [C16.cli.timed.ack.function.validated.before.locking]
+//@   callsite (*clientSocket).nextAckID skip
+// C08 (client): once the socket knows its private session id, the CONNECT packet of every later connection presents
+// the id and the last offset (as a pointer to the object that holds them: the encoder takes nothing else - that part is
+// shown by the replay sio_c08_client_recovery, the contract language has no map types), and the packet is always sent.
+//@ func (*clientSocket).sendConnectPacket
+//@   opt safety off
+//@   requires s != nil
+//@   ghost haspid bool = false
+//@   ghost sent int = 0
+//@   callsite (*clientSocket).pid skip
+//@     updateafter haspid = result1
+//@   callsite (*clientSocket).lastOffset skip
+//@   callsite Marshal skip
+//@   callsite Unmarshal skip
+//@   callsite onError skip
+//@   callsite (*clientSocket).sendControlPacket go
+//@     requires arg0 == parser.PacketTypeConnect && sent == 0 [C08.client.connect.sent.once]
+//@     update sent = sent + 1
+//@   ensures sent == 1 [C08.client.connect.always.sent]
